@@ -327,6 +327,9 @@ def real_rows(c, coords=None):
         shutil.rmtree(tmp, ignore_errors=True)
 
 
+real_rows = common.with_history(real_rows)
+
+
 def traj_tokens(c, pos, nbs, coords=None):
     mode = coords or c["mode"]
     T, N, d = c["T"], c["N"], c["d"]
@@ -599,7 +602,12 @@ def correspond(run):
     n4 = 40 if run.tier == "quick" else 300
     corpus = common.load_corpus(PROP)
     ntie = 30 if run.tier == "quick" else 400
-    cases = [c for c in corpus if c.get("kind") != "sq4"] + [gen_case(run.rng) for _ in range(n)] \
+    def sibling(rng, c):
+        # same frames, timesteps, types, diameters, cell, options — every unwrapped position moved a little
+        if c.get("tie") or c.get("kind") == "sq4":
+            return None
+        return dict(c, xu=[common.jitter_positions(rng, fr, 0.05, 3) for fr in c["xu"]])
+    cases = [c for c in corpus if c.get("kind") != "sq4"] + common.add_siblings(run.rng, [gen_case(run.rng) for _ in range(n)], sibling, every=5) \
         + [gen_tie(run.rng) for _ in range(ntie)]
     cases4 = [c for c in corpus if c.get("kind") == "sq4"] + [gen_sq4(run.rng) for _ in range(n4)]
     dis, mon = judge(run, cases, "impl")
